@@ -164,10 +164,13 @@ def is_collider(
     :param conditions: The conditional variables, denoted as $Z$ in the paper
     :return: If the three nodes form a collider
     """
+    # a collider is open if it is an ancestor of a condition (including being a condition itself):
+    # then there is a walk down to the condition and back along directed edges
     return (
         _has_either_edge(graph, left, middle)
         and _has_either_edge(graph, right, middle)
-        and middle in conditions
+        and bool(conditions)
+        and middle in graph.ancestors_inclusive(conditions)
     )
 
 
